@@ -50,6 +50,9 @@ def verdict_cells(P, b):
 
 def run(chk, ctx):
     P = Prog(ctx["facts"])
+    from . import eqrules
+    eqrules.require(chk, P, ["Signal"], "`output.signal == signal` identifies the signal (name, width and direction all equal)")
+    eqrules.require(chk, P, ["value::ExpectedValue"], "`expected != ExpectedValue::X` means the entry is checked")
     chk.explanation = ("C03 decided as tables and alignment rules on all paths: TAB (the 3x3 verdict table of ExpectedValue::check with leaf n==m for Value x Value, compared with the reference written from the property; "
                        "OutputResultEntry::check, OutputValue::check, is_checked, failing_outputs as terms), GUARD+ORG (the value reported for an entry is outputs[i].value of this call's answer on the edge where the entry's own signal equals outputs[i].signal, "
                        "with i the position learnt for that signal; never-supplied => X), alignment (expected entries, output indices and extracted values are produced by forward map/zip/collect pipelines over the same expected_indices, one push per element).")
